@@ -174,6 +174,10 @@ class BufferedFile(ClosingContextManager):
             raise IOError("File is closed")
         if not (self._flags & self.FLAG_READ):
             raise IOError("File is not open for reading")
+        if self._wbuffer.tell() and self.seekable():
+            # reads and writes share one position in a seekable file, so
+            # what was written must be in place before we read.
+            self.flush()
         if (size is None) or (size < 0):
             # go for broke
             result = bytearray(self._rbuffer)
@@ -239,6 +243,8 @@ class BufferedFile(ClosingContextManager):
             raise IOError("File is closed")
         if not (self._flags & self.FLAG_READ):
             raise IOError("File not open for reading")
+        if self._wbuffer.tell() and self.seekable():
+            self.flush()
         line = self._rbuffer
         truncated = False
         while True:
